@@ -2,6 +2,7 @@
 import Wz.Model.WasiFs2
 import Wz.Proofs.C15_Poll
 import Wz.Proofs.C15_Table
+import Wz.Proofs.C15_Readdir
 
 namespace Wz.C15
 open Wz.Model Wz.Model.Wasi Wz.Model.DescTable Wz.Gen.Wasi
@@ -425,5 +426,95 @@ theorem sockRecv_safe (fixed : Bool) (m : Mem) (hb : Bytes m) (fds : Fds) (fd io
     | exact peek_zero_leaf m res ro hr hro hs
     | exact readv_leaf m hb iovs _ res ro hr hro hs
     | exact peek_leaf m _ _ res ro (le32_lt m hb _) (le32_lt m hb _) hr hro hs (by assumption)
+
+/-! ### fd_readdir -/
+
+/-- the host's file names are shorter than 4 GiB - 48 (else `maxDirents` panics with "invalid filename: too large",
+which no guest argument can cause) -/
+def HostNamesOk (h : Host) : Prop := ∀ n ∈ h.preEntries ++ h.dirEntries, n < 4294967248
+
+theorem listing_ok (h : Host) (hh : HostNamesOk h) (k : Kind) : ∀ n ∈ listing h k, n < 4294967248 := by
+  intro n hn
+  unfold listing at hn
+  split at hn
+  all_goals
+    simp only [List.mem_cons] at hn
+    rcases hn with rfl | rfl | hn
+    · decide
+    · decide
+    · exact hh n (by simp [hn])
+
+theorem rd_leaf1 (m : Mem) (buf B : Nat) (e : Err) (he : e ≠ Err.panic) (hb : buf < 4294967296) (hB : B < 4294967296)
+    (hs : m.size < 9223372036854775808) (h1 : ¬ (!m.has buf B) = true) :
+    AllSafe m [{ err := e, writes := [Wr.region buf B] }] := by
+  intro r hr'
+  simp only [List.mem_cons, List.not_mem_nil, or_false] at hr'
+  subst hr'
+  refine safe_w m _ _ he ?_
+  intro w hw'
+  simp only [List.mem_cons, List.not_mem_nil, or_false] at hw'
+  subst hw'
+  exact region_ok m buf B hb hB hs (by simpa using h1)
+
+theorem rd_leaf2 (m : Mem) (buf B res v : Nat) (hb : buf < 4294967296) (hB : B < 4294967296) (hr : res < 4294967296)
+    (hs : m.size < 9223372036854775808) (h1 : ¬ (!m.has buf B) = true) (h2 : ¬ (!m.has res 4) = true) :
+    AllSafe m [{ err := Err.errno 0, writes := [Wr.region buf B, Wr.bytes res (bytesLE 4 v)] }] := by
+  intro r hr'
+  simp only [List.mem_cons, List.not_mem_nil, or_false] at hr'
+  subst hr'
+  refine safe_w m _ _ nofun ?_
+  intro w hw'
+  simp only [List.mem_cons, List.not_mem_nil, or_false] at hw'
+  rcases hw' with rfl | rfl
+  · exact region_ok m buf B hb hB hs (by simpa using h1)
+  · exact bytes_ok m res _ hr (by rw [bytesLE_length]; decide) hs (by rw [bytesLE_length]; simpa using h2)
+
+theorem rd_leaf3 (m : Mem) (res v : Nat) (hr : res < 4294967296)
+    (hs : m.size < 9223372036854775808) (h2 : ¬ (!m.has res 4) = true) :
+    AllSafe m [{ err := Err.errno 0, writes := [Wr.bytes res (bytesLE 4 v)] }] := by
+  intro r hr'
+  simp only [List.mem_cons, List.not_mem_nil, or_false] at hr'
+  subst hr'
+  refine safe_w m _ _ nofun ?_
+  intro w hw'
+  simp only [List.mem_cons, List.not_mem_nil, or_false] at hw'
+  subst hw'
+  exact bytes_ok m res _ hr (by rw [bytesLE_length]; decide) hs (by rw [bytesLE_length]; simpa using h2)
+
+theorem readdirEmit_safe (m : Mem) (buf bufLen res : Nat) (names : List Nat) (hn : ∀ n ∈ names, n < 4294967248)
+    (hb : buf < 4294967296) (hl : bufLen < 4294967296) (hr : res < 4294967296)
+    (hs : m.size < 9223372036854775808) : AllSafe m (readdirEmit m buf bufLen res names) := by
+  unfold readdirEmit
+  split
+  · rename_i hnone
+    exact absurd hnone (maxDirents_some names bufLen 0 0 hn)
+  · rename_i B C T hsome
+    obtain ⟨hw, hB⟩ := writeDirents_some names bufLen B C T hn hl hsome
+    have hB' : B < 4294967296 := by omega
+    split_all
+    all_goals first
+      | rE_safe
+      | exact absurd ‹writeDirents B names C T = none› hw
+      | exact rd_leaf1 m buf B _ (by decide) hb hB' hs (by assumption)
+      | exact rd_leaf2 m buf B res _ hb hB' hr hs (by assumption) (by assumption)
+      | exact rd_leaf3 m res _ hr hs (by assumption)
+
+theorem fdReaddir_safe (h : Host) (hh : HostNamesOk h) (m : Mem) (fds : Fds) (fd buf bufLen cookie res : Nat)
+    (hb : buf < 4294967296) (hl : bufLen < 4294967296) (hr : res < 4294967296)
+    (hs : m.size < 9223372036854775808) : AllSafe m (fdReaddir h fds m fd buf bufLen cookie res) := by
+  unfold fdReaddir
+  split
+  · rE_safe
+  · split
+    · rE_safe
+    · rename_i k _
+      split
+      · rE_safe
+      · split
+        · rE_safe
+        · dsimp only
+          refine readdirEmit_safe m buf bufLen res _ ?_ hb hl hr hs
+          intro n hn
+          exact listing_ok h hh k n (List.mem_of_mem_drop (List.mem_of_mem_take hn))
 
 end Wz.C15
